@@ -506,7 +506,7 @@ func stageC20Seal(raw json.RawMessage) Result {
 		if err != nil {
 			return fail("layout: sealed value is not standard base64: %v", err)
 		}
-		lay := layout{n: len(orig), rsaLen: c.Bits / 8, tagLen: c.TagLen, parts: c.Parts}
+		lay := layout{n: len(orig), rsaLen: (c.Bits + 7) / 8, tagLen: c.TagLen, parts: c.Parts}
 		if len(orig) != 3+lay.rsaLen+len(text)+lay.tagLen || orig[0] != 1 || int(binary.BigEndian.Uint16(orig[1:])) != lay.rsaLen {
 			// The envelope is not laid out as Seal.tla assumes (the property does not prescribe a layout): the
 			// region-wise schedule cannot be applied, so every byte position is altered blindly instead -
